@@ -6,7 +6,7 @@ Import ListNotations.
 Require Import CV.Orient CV.FreeSpace CV.Circuit CV.CircuitProofs CV.Hpwl CV.Moves CV.MovesProofs CV.MovesOrientProofs CV.Optimiser CV.ShiftLp.
 Require Import CV.Legalizer CV.LegalizerProofs CV.LegalizerSoundProofs CV.DetailedInit CV.DetailedInitProofs CV.DetailedExport CV.DetailedExportProofs.
 Require Import CV.DetailedValue CV.DetailedValueProofs CV.DetailedValueStepProofs CV.RowNeigh CV.Reorder.
-Require Import CV.DetailedRun CV.DetailedRunProofs CV.DetailedRunStructProofs CV.DetailedRunTermProofs CV.DetailedRunTotalProofs CV.DetailedRunCircuitProofs.
+Require Import CV.DetailedRun CV.DetailedRunProofs CV.DetailedRunStructProofs CV.DetailedRunTermProofs CV.DetailedRunTotalProofs CV.DetailedRunCircuitProofs CV.DetailedRunShiftProofs.
 Require Import CV.Properties_C02_run.
 Local Open Scope Z_scope.
 
@@ -50,6 +50,22 @@ Theorem c05_place_detailed_model_never_worsens_hpwl : forall c rh nets, std_desi
             hpwl_circuit e nets <= hpwl_circuit c nets /\ (same_polar_orient c c' -> hpwl_circuit c' nets <= hpwl_circuit e nets)) exs.
 Proof. exact place_detailed_model_hpwl. Qed.
 
+(* [F] MAIN with the shift DRIVER closed (oracle = lemon's answer per runShiftsOnCells call, accepted only through the proved
+   certificate checker; see Properties_C02_run.v): the circuits the model of DetailedPlacer::place returns -- c' final, exs at the
+   callbacks, in order -- never have a larger Circuit::hpwl than the legalized circuit, the final one not larger than any callback
+   circuit, a later callback circuit not larger than an earlier one (F8 scope same_polar_orient at the compared circuits); or the
+   run stopped on the oracle.  No hypothesis on the oracle. *)
+Theorem c05_place_detailed_closed_never_worsens_hpwl : forall c rh nets, std_design c rh -> legal c -> forall p answers d0,
+  from_circuit c = DOk d0 -> params_ok p = true -> int_pins c nets -> pins_fit c rh nets ->
+  ok_or_oracle (place_detailed_model_c c nets p answers)
+    (fun r => let '(c', exs, _) := r in
+       (same_polar_orient c c' -> hpwl_circuit c' nets <= hpwl_circuit c nets) /\
+       Forall (fun e => same_polar_orient c e ->
+                 hpwl_circuit e nets <= hpwl_circuit c nets /\ (same_polar_orient c c' -> hpwl_circuit c' nets <= hpwl_circuit e nets)) exs /\
+       (forall l1 e1 l2 e2 l3, exs = l1 ++ e1 :: l2 ++ e2 :: l3 -> same_polar_orient c e1 -> same_polar_orient c e2 ->
+                 hpwl_circuit e2 nets <= hpwl_circuit e1 nets)).
+Proof. exact place_detailed_c_hpwl. Qed.
+
 (* non-vacuity on exrun (Properties_C02_run.v: two rows N / FS, cell 0 polarised NW, cells changing row): every hypothesis of the
    main theorem holds, every exposed state is in the F8 scope (the polarised cell cannot leave its row), and the exposed
    Circuit::hpwl values are 19 (legalized) >= 12 >= 12 >= 9 >= 9 (callbacks) >= 9 (final), equal to the optimised values *)
@@ -79,8 +95,25 @@ Proof.
   vm_compute. repeat split; reflexivity.
 Qed.
 
+(* non-vacuity of the closed theorem: on exrun with the four recorded answers of lemon (Properties_C02_run.v) the model returns, every
+   returned circuit is in the F8 scope, and Circuit::hpwl goes 19 (legalized) >= 12 (after the swaps) >= 5 (after the shifts) >= 5 (final) *)
+Example c05_run_closed_nonvacuous :
+  exists c' exs, place_detailed_model_c exrun exrun_nets exrun_ps [exrun_ans1; exrun_ans2; exrun_ans3; exrun_ans4] = ROk (c', exs, []) /\
+    same_polar_orient exrun c' /\ Forall (same_polar_orient exrun) exs /\
+    hpwl_circuit exrun exrun_nets = 19 /\ map (fun e => hpwl_circuit e exrun_nets) exs = [12; 5] /\ hpwl_circuit c' exrun_nets = 5.
+Proof.
+  assert (G : forall c', nth_error (cells c') 0 = Some (mkcell 0 0 2 2 oN pNW false true) -> same_polar_orient exrun c').
+  { intros c' H0 i k k' Hk Hk' Hp. destruct i as [|[|[|[|[|[|i]]]]]]; cbn in Hk; try (injection Hk as <-; exfalso; apply Hp; reflexivity).
+    - injection Hk as <-. rewrite H0 in Hk'. injection Hk' as <-. reflexivity.
+    - destruct i; discriminate. }
+  eexists _, _. split; [vm_compute; reflexivity|]. split; [apply G; reflexivity|]. split; [repeat constructor; apply G; reflexivity|].
+  vm_compute. repeat split; reflexivity.
+Qed.
+
 Print Assumptions c05_run_value_never_negative.
 Print Assumptions c05_run_accepted_swap_lowers_value.
 Print Assumptions c05_run_exposed_wirelength_never_increases.
 Print Assumptions c05_place_detailed_model_never_worsens_hpwl.
+Print Assumptions c05_place_detailed_closed_never_worsens_hpwl.
 Print Assumptions c05_run_nonvacuous.
+Print Assumptions c05_run_closed_nonvacuous.
